@@ -18,12 +18,14 @@ struct Model {
     max_y: i32,
     any: bool,
     declared: Option<(i32, i32)>,
+    /// "Pan;Pad;Ph: the horizontal extent only
+    declared_width: Option<i32>,
     declared_before_data: bool,
     raster_count: u32,
 }
 
 fn model(tokens: &[&str]) -> Model {
-    let mut m = Model { max_x: -1, max_y: -1, any: false, declared: None, declared_before_data: true, raster_count: 0 };
+    let mut m = Model { max_x: -1, max_y: -1, any: false, declared: None, declared_width: None, declared_before_data: true, raster_count: 0 };
     let (mut x, mut band) = (0i32, 0i32);
     let mut data_seen = false;
     for t in tokens {
@@ -40,8 +42,10 @@ fn model(tokens: &[&str]) -> Model {
                 m.raster_count += 1;
                 if nums.len() == 4 {
                     m.declared = Some((nums[2], nums[3]));
+                    m.declared_width = None;
                 } else {
                     m.declared = None;
+                    m.declared_width = if nums.len() == 3 { Some(nums[2]) } else { None };
                 }
                 if data_seen {
                     m.declared_before_data = false;
@@ -131,6 +135,17 @@ fn run_payload(tokens: &[&str], ctx: &mut Ctx) {
                     ctx.violation("diff:sixel:declared-raster-not-kept", json!({"payload": payload, "declared": [dw, dh], "got": [w, h]}));
                 }
             }
+            // one declaration before the data: the image is the rectangle the data fills or the rectangle that was declared, not a mix
+            // of the two (one axis clipped to the declaration, the other one not); a declaration of the width alone declares no height
+            if m.any && m.raster_count == 1 && m.declared_before_data && m.max_x < 1000 && m.max_y < 1000 {
+                let covers = m.max_x < w && m.max_y < h;
+                let is_declared = m.declared == Some((w, h));
+                let width_only_ok = m.declared_width.is_some() && m.max_y < h && (m.max_x < w || m.declared_width == Some(w));
+                if !covers && !is_declared && !width_only_ok {
+                    let kind = if m.declared_width.is_some() { "width-only-declaration" } else { "declaration-smaller-than-data" };
+                    ctx.violation(format!("diff:sixel:neither-data-nor-declared-rectangle:{kind}"), json!({"payload": payload, "declared": m.declared, "declared_width": m.declared_width, "data_extent": [m.max_x + 1, m.max_y + 1], "got": [w, h]}));
+                }
+            }
             // without any raster declaration nothing clips: every pixel the data sets is inside the image
             // (images beyond 1000 px may legitimately be clipped by an implementation limit)
             if m.any && m.raster_count == 0 && m.max_x < 1000 && m.max_y < 1000 && (m.max_x >= w || m.max_y >= h) {
@@ -182,7 +197,10 @@ fn image_dcs(img: usize) -> Vec<u8> {
         if b > 0 {
             s.push('-');
         }
-        s.push_str(&format!("!{w}~"));
+        // the last band paints the rows up to the declared height only (a decoder may grow the picture for rows painted below it)
+        let rows = (h - b * 6).min(6);
+        let ch = (b'?' + ((1u8 << rows) - 1)) as char;
+        s.push_str(&format!("!{w}{ch}"));
     }
     s.push_str("\x1b\\");
     s.into_bytes()
@@ -428,8 +446,13 @@ fn run_schedule_once(assign: &[usize], sched: &[Ev], ctx: &mut Ctx, last: bool) 
                 HELD_AT_POLL_START.store(held_before.len() as u64, std::sync::atomic::Ordering::SeqCst);
                 POLLER_TID.store(unsafe { libc::gettid() } as i64, std::sync::atomic::Ordering::SeqCst);
                 POLL_STARTED_MS.store(now_ms(), std::sync::atomic::Ordering::SeqCst);
+                let shown_before: Vec<Option<usize>> = buf.layers[0].sixels.iter().map(identify).collect();
                 let r = catch(|| buf.update_sixel_threads());
                 POLL_STARTED_MS.store(0, std::sync::atomic::Ordering::SeqCst);
+                let reported = match &r {
+                    Ok(Ok(flag)) => Some(*flag),
+                    _ => None,
+                };
                 let dt = t0.elapsed();
                 if let Err(p) = r {
                     ctx.panic(&p, json!({"step": step}));
@@ -456,6 +479,11 @@ fn run_schedule_once(assign: &[usize], sched: &[Ev], ctx: &mut Ctx, last: bool) 
                 outcome.u64(got.len() as u64);
                 for g in &got {
                     outcome.u64(g.map(|x| x as u64 + 1).unwrap_or(0));
+                }
+                if got != shown_before && reported == Some(false) {
+                    // the poll put an image on the screen and said that nothing changed: a caller that redraws on "updated" does not show it
+                    bad = Some(("diff:sixel-sched:poll-delivered-but-reported-no-update".into(), json!({"step": step, "shown_before": shown_before, "shown_after": got})));
+                    break;
                 }
                 if got != want_o {
                     let class = if got.len() < want_o.len() {
@@ -522,7 +550,55 @@ fn big_payloads() -> Vec<String> {
     v
 }
 
+/// the same images in a file: the loader turns them into image layers, bottom to top in arrival order (a newer image that covers older ones replaces them)
+fn run_file(assign: &[usize], ctx: &mut Ctx) {
+    ctx.count("evaluations", 1);
+    ctx.count("nontrivial", 1);
+    let mut bytes = b"text before\r\n".to_vec();
+    for a in assign {
+        bytes.extend(image_dcs(*a));
+    }
+    bytes.extend(b"\x1b[20;1Htext after\r\n");
+    ctx.count("transitions", bytes.len() as u64);
+    let r = catch(|| Buffer::from_bytes(std::path::Path::new("x.ans"), false, &bytes));
+    let buf = match r {
+        Err(p) => {
+            ctx.panic(&p, json!({"images_in_arrival_order": assign}));
+            return;
+        }
+        Ok(Err(e)) => {
+            ctx.violation("diff:sixel-file:load-refused", json!({"images_in_arrival_order": assign, "error": e.to_string()}));
+            return;
+        }
+        Ok(Ok(b)) => b,
+    };
+    let want = expected_after(assign, assign.len());
+    // an image layer holds its picture at (0,0), the layer offset is the cell position
+    let got: Vec<Option<usize>> = buf
+        .layers
+        .iter()
+        .filter(|l| !l.sixels.is_empty())
+        .map(|l| {
+            let s = &l.sixels[0];
+            let p = l.get_offset() + s.position;
+            IMAGES.iter().position(|&(x, y, w, h)| p == Position::new(x, y) && s.get_width() == w && s.get_height() == h)
+        })
+        .collect();
+    let mut f = Fnv::new();
+    for g in &got {
+        f.u64(g.map(|x| x as u64 + 1).unwrap_or(0));
+    }
+    ctx.state(f.finish());
+    ctx.outcome(f.finish());
+    let want_o: Vec<Option<usize>> = want.iter().map(|x| Some(*x)).collect();
+    if got != want_o {
+        let class = if got.len() != want_o.len() { "image-count" } else { "stacking-order" };
+        ctx.violation(format!("diff:sixel-file:{class}"), json!({"images_in_arrival_order": assign, "image_layers_bottom_to_top": got, "want": want}));
+    }
+}
+
 struct C14 {
+    files: Vec<Vec<usize>>,
     payloads: Payloads,
     n_payload_batches: u64,
     scheds: Vec<(Vec<usize>, Vec<Ev>)>,
@@ -561,13 +637,20 @@ fn build(tier: &str) -> C14 {
     }
     let meta = json!({"payload_alphabet": PAYLOAD_TOKENS, "payload_depth": payloads.depth, "payloads": payloads.total(), "schedule_space": space,
                       "images(cell x, cell y, px w, px h)": IMAGES.to_vec().iter().map(|i| json!([i.0, i.1, i.2, i.3])).collect::<Vec<_>>()});
-    C14 { payloads, n_payload_batches, scheds, big: big_payloads(), meta }
+    let mut files: Vec<Vec<usize>> = Vec::new();
+    for k in 1..=4 {
+        files.extend(perms(k));
+    }
+    for extra in [vec![0, 1, 4, 3], vec![4, 0, 1, 2], vec![3, 0, 4, 1], vec![0, 3, 1, 4]] {
+        files.push(extra);
+    }
+    C14 { files, payloads, n_payload_batches, scheds, big: big_payloads(), meta }
 }
 
 impl Engine for C14 {
     fn total(&self) -> u64 {
         // schedules first (they are the slow ones and interleave well across shards), then payload batches
-        self.scheds.len() as u64 + self.n_payload_batches + self.big.len() as u64
+        self.scheds.len() as u64 + self.n_payload_batches + self.big.len() as u64 + self.files.len() as u64
     }
     fn run(&mut self, idx: u64, ctx: &mut Ctx) {
         if (idx as usize) < self.scheds.len() {
@@ -580,15 +663,21 @@ impl Engine for C14 {
                 let toks = self.payloads.decode(p);
                 run_payload(&toks, ctx);
             }
-        } else {
+        } else if idx < self.scheds.len() as u64 + self.n_payload_batches + self.big.len() as u64 {
             let p = self.big[(idx - self.scheds.len() as u64 - self.n_payload_batches) as usize].clone();
             run_big_payload(&p, ctx);
+        } else {
+            let a = self.files[(idx - self.scheds.len() as u64 - self.n_payload_batches - self.big.len() as u64) as usize].clone();
+            run_file(&a, ctx);
         }
     }
     fn describe(&self, idx: u64) -> Value {
         if (idx as usize) < self.scheds.len() {
             let (a, s) = &self.scheds[idx as usize];
             json!({"engine": "sixel-schedule", "images_in_arrival_order": a, "events": ev_json(s), "then": "poll poll", "key": format!("sixel-sched:k={}", a.len())})
+        } else if idx >= self.scheds.len() as u64 + self.n_payload_batches + self.big.len() as u64 {
+            let a = &self.files[(idx - self.scheds.len() as u64 - self.n_payload_batches - self.big.len() as u64) as usize];
+            json!({"engine": "sixel-file", "images_in_arrival_order_file": a, "key": "sixel-file"})
         } else if idx >= self.scheds.len() as u64 + self.n_payload_batches {
             let p = &self.big[(idx - self.scheds.len() as u64 - self.n_payload_batches) as usize];
             json!({"engine": "sixel-big-payload", "payload": p, "key": "sixel-big-payload"})
@@ -619,6 +708,9 @@ impl Engine for C14 {
                 })
                 .collect();
             run_schedule(&a, &s, ctx);
+        } else if case["engine"] == "sixel-file" {
+            let a: Vec<usize> = case["images_in_arrival_order_file"].as_array().unwrap().iter().map(|v| v.as_u64().unwrap() as usize).collect();
+            run_file(&a, ctx);
         } else if case["engine"] == "sixel-big-payload" {
             run_big_payload(case["payload"].as_str().unwrap_or(""), ctx);
         } else if let Some(p) = case.get("payload_tokens") {
